@@ -7,7 +7,7 @@
      - the error summary as a multiset of logIDs, and the printed "Number of errors",
      - the set of line indices that were started (their result folder exists). *)
 From stdpp Require Import gmap.
-From Hermes Require Import PoolModel DispatchModel OutFileModel.
+From Hermes Require Import PoolModel DispatchModel OutFileModel HandleModel.
 
 Fixpoint insert_sorted (x : Z) (l : list Z) : list Z :=
   match l with
@@ -69,4 +69,39 @@ Fixpoint fmismatches (i : Z) (l : list fcase) : list Z :=
   match l with
   | [] => []
   | c :: r => if fcase_ok c then fmismatches (i + 1) r else i :: fmismatches (i + 1) r
+  end.
+
+(* ---- several handles of hermes.DefaultFoutGenerator open on ONE path at the same time; the
+   events are the writes reaching the operating system (chunks >= 4096 bytes go through bufio
+   directly, a final small chunk is written at Close); bytes are given run-length encoded *)
+Inductive hev := HOpen (h : nat) (append : bool) | HWrite (h : nat) (v : Z) (n : Z).
+Record hcase := HCase { hc_old : list (Z * Z); hc_events : list hev; hc_obs : list (Z * Z) }.
+
+Definition rle (l : list (Z * Z)) : list Z := flat_map (fun vn => repeat vn.1 (Z.to_nat vn.2)) l.
+
+(* the old content is at most one run *)
+Definition file_of (l : list (Z * Z)) : @hfile Z :=
+  match l with
+  | (v, n) :: _ => HFile (fun p => if (p <? Z.to_N n)%N then v else 0%Z) (Z.to_N n)
+  | [] => empty_file 0%Z
+  end.
+
+Fixpoint hrun (f : @hfile Z) (hs : list (nat * handle)) (evs : list hev) : @hfile Z :=
+  match evs with
+  | [] => f
+  | HOpen h app :: r => let '(f', hd) := fout_hopen 0%Z app f in hrun f' ((h, hd) :: hs) r
+  | HWrite h v n :: r =>
+      match List.find (fun x => Nat.eqb x.1 h) hs with
+      | Some (_, hd) => let '(f', hd') := hwritef f hd (fun _ => v) (Z.to_N n) in hrun f' ((h, hd') :: hs) r
+      | None => f
+      end
+  end.
+
+Definition hcase_ok (c : hcase) : bool :=
+  bool_decide (file_bytes (hrun (file_of (hc_old c)) [] (hc_events c)) = rle (hc_obs c)).
+
+Fixpoint hmismatches (i : Z) (l : list hcase) : list Z :=
+  match l with
+  | [] => []
+  | c :: r => if hcase_ok c then hmismatches (i + 1) r else i :: hmismatches (i + 1) r
   end.
